@@ -66,6 +66,8 @@ class FakeSock:
     def shutdown(self, how):
         if self.closed:
             raise OSError(errno.EBADF, 'bad descriptor')
+        if self.dead or self.peer is None:
+            raise OSError(errno.ENOTCONN, 'not connected')     # as the kernel answers once the connection is gone
         self.shut = how
 
     def close(self):
